@@ -27,6 +27,7 @@ type c07Item struct {
 	d     *ProofD
 	u     *ProofU
 	attrs []*big.Int
+	bld   int // issuance: which CredentialBuilder object made the commitment (same builder => same U by construction)
 }
 
 // c07Judge: all pairs of kept proofs.
@@ -74,8 +75,8 @@ func c07Judge(pk map[string]*gabikeys.PublicKey, items []c07Item, secret *big.In
 			impl := new(big.Int).Sub(it.u.SResponse, new(big.Int).Mul(it.u.C, secret))
 			rs = append(rs, rnd{"secret", impl.String(), it.list, i})
 			key := "U|" + it.u.U.String()
-			if j, dup := seen[key]; dup {
-				return "repeated-U", fmt.Sprintf("issuance commitments %d and %d share U (same v')", j, i)
+			if j, dup := seen[key]; dup && items[j].bld != it.bld {
+				return "repeated-U", fmt.Sprintf("issuance commitments %d and %d of different builders share U (same v')", j, i)
 			}
 			seen[key] = i
 		}
@@ -108,12 +109,12 @@ var c07E = map[*ProofD]*big.Int{}
 
 func itE(it c07Item) *big.Int { return c07E[it.d] }
 
-var c07Ops = []string{"prepare", "update", "prove-nonrev", "prove-plain", "list(A nonrev,B)", "issuance-commit"}
+var c07Ops = []string{"prepare", "update", "prove-nonrev", "prove-plain", "list(A nonrev,B)", "issuance-commit", "issuance-commit-same-builder"}
 
 func TestVerifC07Sequential(t *testing.T) {
 	r := vkit.Start(t, "C07", "sequential-histories", 240*time.Second, 1500*time.Second)
 	defer r.Finish()
-	r.Rule = "every sequence of <= D operations over {prepare cache, update witness (after a revocation of another value), prove with non-revocation, prove without, BuildProofList over credential A (non-revocation) and B, issuance commitment with the same secret}; a state is the history, replayed on fresh real objects with seeded randomness; every produced proof is kept; non-trivial = distinct sequence producing >= 2 proofs; oracle over all pairs: implied randomisers s-c*m of every hidden attribute, the secret key (except inside one list) and the exponent pairwise distinct, A / C_r / C_u / U never repeat, every proof verifies"
+	r.Rule = "every sequence of <= D operations over {prepare cache, update witness (after a revocation of another value), prove with non-revocation, prove without, BuildProofList over credential A (non-revocation) and B, issuance commitment with the same secret, a further issuance commitment from the SAME builder under a new nonce (retried session)}; a state is the history, replayed on fresh real objects with seeded randomness; every produced proof is kept; non-trivial = distinct sequence producing >= 2 proofs; oracle over all pairs: implied randomisers s-c*m of every hidden attribute, the secret key (except inside one list) and the exponent pairwise distinct, A / C_r / C_u / U never repeat, every proof verifies"
 	D := vkit.Pick(4, 6)
 	r.Bounds["max_depth"] = D
 	kA, kB := vfK("toyB"), vfK("toyA")
@@ -141,6 +142,8 @@ func TestVerifC07Sequential(t *testing.T) {
 		credA := w.issue(secret, []*big.Int{vfTag("c07-a1"), vfTag("c07-a2")}, 3)
 		credB := vfMint(kB, secret, []*big.Int{vfTag("c07-b1")}, 4)
 		var items []c07Item
+		var lastCB *CredentialBuilder
+		builders := 0
 		name := ""
 		for _, o := range seq {
 			name += c07Ops[o] + ";"
@@ -199,22 +202,33 @@ func TestVerifC07Sequential(t *testing.T) {
 				pA, pB := L[0].(*ProofD), L[1].(*ProofD)
 				c07E[pA], c07E[pB] = credA.Signature.E, credB.Signature.E
 				items = append(items, c07Item{op: "list/A", list: step, cred: "A", d: pA, attrs: credA.Attributes}, c07Item{op: "list/B", list: step, cred: "B", d: pB, attrs: credB.Attributes})
-			case "issuance-commit":
-				cb, err := NewCredentialBuilder(kB.Pk, vfContext, secret, vsNonce2, nil, nil)
-				if err != nil {
-					fail("credential-builder-failed", err.Error())
-					return
+			case "issuance-commit", "issuance-commit-same-builder":
+				// (a retried issuance session: the same builder commits again under a new nonce)
+				var cb *CredentialBuilder
+				nonce := vfNonce
+				if c07Ops[o] == "issuance-commit-same-builder" && lastCB != nil {
+					cb = lastCB
+					nonce = new(big.Int).Add(vfNonce, vfInt(int64(step)+1))
+				} else {
+					var err error
+					cb, err = NewCredentialBuilder(kB.Pk, vfContext, secret, vsNonce2, nil, nil)
+					if err != nil {
+						fail("credential-builder-failed", err.Error())
+						return
+					}
+					lastCB = cb
+					builders++
 				}
-				msg, err := cb.CommitToSecretAndProve(vfNonce)
+				msg, err := cb.CommitToSecretAndProve(nonce)
 				if err != nil {
 					fail("commit-failed", err.Error())
 					return
 				}
 				pu := msg.Proofs[0].(*ProofU)
-				if !pu.Verify(kB.Pk, vfContext, vfNonce) {
+				if !pu.Verify(kB.Pk, vfContext, nonce) {
 					fail("proof-invalid", "ProofU")
 				}
-				items = append(items, c07Item{op: "issuance", list: 2000 + step, cred: "B", u: pu})
+				items = append(items, c07Item{op: c07Ops[o], list: 2000 + step, cred: "B", u: pu, bld: builders})
 			}
 		}
 		if sig, detail := c07Judge(pks, items, secret); sig != "" {
